@@ -129,6 +129,13 @@ def shards(tier: str, seed: int) -> List[Dict[str, Any]]:
     # time limits chosen above end nearly every episode at the limit
     for e, cid in MIXED_ENDINGS[tier]:
         out.append({"id": f"{e}|{cid}|mixed", "env": e, "cfg": E.cfg_by_id(e, cid), "steps": 150 if tier == "quick" else 500, "weight": HEAVY.get(e, 1.0)})
+    # episodes driven by the models' completing workloads through the wrapper (a perfect Snake player fills the board again and
+    # again), and runs whose time limit is set to the step of the first rewarded event of that very key (a RobotWarehouse
+    # delivery / a PacMan pellet / a Cleaner tile on the step that ends the episode)
+    for e, cid in (("Snake", "r2c3L40"), ("Snake", "r4c4L200"), ("Sudoku", "veryeasy"), ("Minesweeper", "r3c7m5")):
+        out.append({"id": f"{e}|{cid}|policy-complete", "env": e, "cfg": E.cfg_by_id(e, cid), "policy": "complete", "steps": 260 if tier == "quick" else 800, "weight": HEAVY.get(e, 1.0)})
+    for e, cid in (("RobotWarehouse", "s2x1h3a2r1q2L7"), ("RobotWarehouse", "default"), ("Cleaner", "r4c7a1"), ("LevelBasedForaging", "g6a3f2v1L20")):
+        out.append({"id": f"{e}|{cid}|limit-at-first-reward", "env": e, "cfg": E.cfg_by_id(e, cid), "policy": "complete", "coincide_reward": True, "weight": HEAVY.get(e, 1.0)})
     for e, cid, kind in INNER[tier]:
         out.append({"id": f"{e}|{cid}|inner-{kind}", "env": e, "cfg": E.cfg_by_id(e, cid), "inner": kind, "weight": HEAVY.get(e, 1.0)})
     return out
@@ -162,14 +169,61 @@ def run_shard(shard: Dict[str, Any], rep: Report) -> None:
     def viol(clause, detail, replay=None, qualifier=""):
         rep.violation(name, cid, clause, detail, replay=replay or {"env": name, "cfg": cfg}, qualifier=qualifier)
 
-    def choose_action(ts, i):
+    model_pol = None
+    pol_ctx: Dict[str, Any] = {}
+    if shard.get("policy"):
+        from jmon.modelapi import ModelCtx
+        from jmon.rollout import Runner
+
+        facade = Runner(name, cfg)
+        P = ModelCtx(name, cfg, rep, env=facade.env, rng=rng)
+        model_pol = (P.call("policies") if P.has("policies") else {}).get(shard["policy"])
+        pol_ctx = {"env_name": name, "spec": spec, "rng": rng, "runner": facade, "legal_only": True, "policy": "model", "episode": 0}
+
+    def choose_action(ts, i, state=None, t_ep=0):
+        if model_pol is not None and state is not None:
+            if t_ep == 0:  # a new episode: the workloads keep per-episode plans in their context
+                for k_ in [k_ for k_ in pol_ctx if k_ not in ("env_name", "spec", "rng", "runner", "legal_only", "policy", "episode")]:
+                    del pol_ctx[k_]
+            pol_ctx.update(ts=ts, state=state, t=t_ep)
+            try:
+                return np.asarray(model_pol(pol_ctx))
+            except Exception:
+                pass
         m = A.get_mask(ts)
         u = rng.random()
         if u < 0.55:
             return A.sample_masked(name, spec, m, rng)[0]
         return A.sample_random(spec, rng)
 
+    all_derived: Dict[bytes, int] = {}
     for nobs in (False, True):
+        if shard.get("coincide_reward") and model_pol is not None:
+            # the limit of this pass = the step of the first rewarded event of this pass's own key under the completing workload
+            from jmon.rollout import Runner, run_episode
+
+            big = dict(cfg)
+            big["time_limit"] = 300
+            big["id"] = cfg["id"] + "|L300"
+            key_p, kint_p = key_for(seed, sid, int(nobs))
+            rb = Runner(name, big)
+            Pb = ModelCtx(name, big, rep, env=rb.env, rng=rng)
+            polb = (Pb.call("policies") if Pb.has("policies") else {}).get(shard["policy"])
+            info = run_episode(rb, key_p, kint_p, polb, np.random.default_rng(kint_p), [], max_steps=299)
+            hits = [e_.t for e_ in info["trace"][1:] if float(np.sum(e_.reward)) > 0]
+            if not hits:
+                rep.count("coincide_reward_no_event")
+                continue
+            c2 = dict(cfg)
+            c2["time_limit"] = int(hits[0])
+            c2["id"] = cfg["id"] + f"|L=firstreward{hits[0]}"
+            env = E.build(name, c2)
+            spec = env.action_spec
+            n_reset, n_step = jax.jit(env.reset), jax.jit(env.step)
+            facade = Runner(name, c2)
+            pol_ctx.update(runner=facade, rng=np.random.default_rng(kint_p))
+            n_steps = int(hits[0]) + 6
+            rep.count("coincide_reward_runs")
         w = AutoResetWrapper(env, next_obs_in_extras=nobs)
         # specs pass through unchanged
         for sname in ("observation_spec", "action_spec", "reward_spec", "discount_spec"):
@@ -195,8 +249,10 @@ def run_shard(shard: Dict[str, Any], rep: Report) -> None:
         derived_keys, instance_digests = [], [digest_decoded({k: v for k, v in decode(ns).items() if k != "key"})]
         resets = 0
         orig_key = np.asarray(key)
+        t_ep = 0
         for i in range(n_steps):
-            a = choose_action(ts, i)
+            a = choose_action(ts, i, state, t_ep)
+            t_ep += 1
             aj = A.as_action(spec, a)
             actions.append(np.asarray(a).tolist())
             w2s, w2t = w_step(state, aj)
@@ -220,7 +276,10 @@ def run_shard(shard: Dict[str, Any], rep: Report) -> None:
                     viol("non_terminal_timestep_equals_env_step", {"fields": bad_t[:6], "step": i}, replay=rp)
             else:
                 rep.count("terminal_steps")
+                if float(np.sum(np.asarray(n2t.reward))) > 0:
+                    rep.count("terminal_steps_with_positive_reward")  # an event and the end of the episode on one step
                 resets += 1
+                t_ep = 0
                 tkey = n2s.key
                 cands = {"split0": jax.random.split(tkey)[0], "split1": jax.random.split(tkey)[1]}
                 for j in range(4):
@@ -263,6 +322,15 @@ def run_shard(shard: Dict[str, Any], rep: Report) -> None:
         rep.env_count(name, "wrapper_steps", n_steps)
         rep.states += n_steps
         rep.transitions += n_steps
+        if random_cfg:
+            # the same derived key in two runs that started from different keys: it was not derived from the episode's key stream
+            for dk in set(derived_keys):
+                if dk in all_derived and all_derived[dk] != int(nobs):
+                    rep.evaluated(1)
+                    viol("auto_reset_keys_repeat_across_runs", {"key": np.frombuffer(dk, np.uint32).tolist(), "runs": [all_derived[dk], int(nobs)]},
+                         replay={"env": name, "cfg": cfg, "reset_key_int": kint, "actions": actions[-60:]})
+                all_derived.setdefault(dk, int(nobs))
+            rep.count("key_history_across_runs_checked")
         if random_cfg and len(derived_keys) >= 2:
             rep.evaluated(1)
             rep.count("key_history_checked")
